@@ -517,7 +517,24 @@ pub fn items(prop: &str, tier: &str) -> Vec<Item> {
                     let mut it = item(scs[0].clone(), Plan::Sched { bound }, if th { 80_000 } else { 4_000 });
                     it.scen.name = scs.iter().map(|s| s.name.clone()).collect::<Vec<_>>().join(" || ");
                     it.others = scs[1..].to_vec();
-                    v.push(it);
+                    v.push(it.clone());
+                    // callers that ask for different modes (the second one stricter) on the first two groups
+                    if prop == "C12" && scs.len() == 2 && (scs[0].path == scs[1].path || scs[1].path.starts_with(&format!("{}/", scs[0].path))) {
+                        let mut it2 = it;
+                        let mut o = it2.others[0].clone();
+                        o.op.mode = Some(0o700);
+                        o.name = format!("{}/{}", b, o.op.brief());
+                        it2.scen.name = format!("{} || {}", scs[0].name, o.name);
+                        it2.others = vec![o];
+                        v.push(it2.clone());
+                        // and with the stricter caller scheduled first by default
+                        let mut it3 = it2;
+                        let first = it3.others[0].clone();
+                        let second = it3.scen.clone();
+                        it3.scen = Scenario { name: format!("{} || {}", first.name, scs[0].name), ..first };
+                        it3.others = vec![Scenario { name: scs[0].name.clone(), ..second }];
+                        v.push(it3);
+                    }
                 }
             }
         }
@@ -602,7 +619,7 @@ fn judge_concurrent(prop: &str, it: &Item, scen: &Scenario, w: &World, eo: &Exec
             let on_req = scs.iter().any(|s| { let want = format!("outer/parent/root/{}", s.path.replacen("abs/", "a/b/", 1)); want == *p || want.starts_with(&format!("{}/", p)) });
             let on_chain = on_req || finals.iter().any(|f| f == p || f.starts_with(&format!("{}/", p)));
             if n.typ != "dir" || !on_chain { v.push(("extra-entry".into(), format!("mkdir_all created {} ({}) which is not on the chain of a requested path", p, n.typ))); }
-            else if n.perm != 0o755 { v.push(("mode".into(), format!("created directory {} has mode {:o}, not 0755", p, n.perm))); }
+            else if !scs.iter().any(|s| s.op.mode.unwrap_or(0o755) == n.perm) { v.push(("mode".into(), format!("created directory {} has mode {:o}, which no caller asked for", p, n.perm))); }
         }
     } else {
         for (i, s) in scs.iter().enumerate() { if eo.final_obs(i).map(|o| o.ok).unwrap_or(false) && look(&s.path).is_some() { v.push(("still-there".into(), format!("caller {}: {} still exists after a successful remove_all", i, s.path))); } }
